@@ -182,7 +182,7 @@ func stressChild(args []string) {
 	opts := []taskqueue.Option{taskqueue.Workers(workers), taskqueue.Depth(depth)}
 	handler := func(err error) {
 		// the handler runs on the worker goroutine that ran the panicking task
-		v, ok := curTaskOf.LoadAndDelete(curGID())
+		v, ok := curTaskOf.Load(curGID())
 		if !ok {
 			badRec.Add(1)
 			return
